@@ -280,6 +280,35 @@ def main(tier, seed, replay=None):
                 flags = (["--abort"] if opts.get("abort_on_first") else []) + (["--allow-infos"] if opts.get("allow_infos") else []) + (["-w"] if opts.get("allow_warnings") else [])
                 for fmt in GRAPH_FORMATS + ["human", "table"]:
                     cli_jobs.append((c, ref, fmt, ["-s", sp, "-f", fmt] + flags + [dp], opts))
+        # ---- shapes documents that state a base IRI ('# baseURI:' header, @base, a file of their own) and reports that mention
+        # IRIs under and next to that base: the serialised report must not be written relative to anything
+        based_shapes = ("# baseURI: http://ex.org/shapes\n@prefix sh: <http://www.w3.org/ns/shacl#> . @prefix ex: <http://ex.org/> .\n"
+                        "ex:BS a sh:NodeShape ; sh:targetClass ex:T ; sh:property [ sh:path <http://ex.org/shapes/p> ; sh:nodeKind sh:Literal ] ; sh:property [ sh:path ex:q ; sh:class ex:Nope ] .\n")
+        based_data = rdflib.Graph().parse(data="@prefix ex: <http://ex.org/> . <http://ex.org/shapesExtra/bob> a ex:T ; <http://ex.org/shapes/p> <http://ex.org/shapes/x> , <http://ex.org/other> ; ex:q <http://ex.org/shapes> , <http://ex.org/shapesExtra/y> .", format="turtle")
+        bs_path, bd_path = os.path.join(d, "based_shapes.ttl"), os.path.join(d, "based_data.nt")
+        open(bs_path, "w").write(based_shapes)
+        based_data.serialize(destination=bd_path, format="nt")
+        for shapes_arg, kw_ in ((based_shapes, {"shacl_graph_format": "turtle"}), (bs_path, {}), (based_shapes.replace("# baseURI: http://ex.org/shapes\n", "@base <http://ex.org/shapes> .\n"), {"shacl_graph_format": "turtle"})):
+            refb = S.run_validate(based_data, shapes_arg, **kw_)
+            if refb[0] != "ok":
+                diffs.append(({"sg": rdflib.Graph(), "data": based_data}, "validate() with a shapes document that states a base IRI failed: %r" % (refb[:3],), ("ok", True, [], "", rdflib.Graph()), None, kw_))
+                continue
+            for fmt in GRAPH_FORMATS:
+                conforms, data_bytes, text = pyshacl.validate(based_data, shacl_graph=shapes_arg, serialize_report_graph=fmt, **kw_)
+                stats["api_roundtrips"] += 1
+                stats["based_shapes_roundtrips"] = stats.get("based_shapes_roundtrips", 0) + 1
+                try:
+                    with plain_parse():
+                        g1 = rdflib.Graph().parse(data=data_bytes, format=fmt)
+                    same = conforms == refb[1] and (keys_iso(("ok", conforms, S.parse_report(g1))) == keys_iso(refb)) and (fmt == "json-ld" or isomorphic(refb[4], g1) or isomorphic(order_free_messages(refb[4]), order_free_messages(g1)))
+                except Exception as e:
+                    same = False
+                if not same:
+                    diffs.append(({"sg": rdflib.Graph().parse(data=based_shapes, format="turtle"), "data": based_data}, "shapes document with a base IRI: the report parsed back from %s differs from the report graph of the API" % fmt, refb, None, kw_))
+        ref_files = S.run_validate(bd_path, bs_path)
+        if ref_files[0] == "ok":
+            for fmt in GRAPH_FORMATS + ["human", "table"]:
+                cli_jobs.append(({"sg": rdflib.Graph().parse(data=based_shapes, format="turtle"), "data": based_data}, ref_files, fmt, ["-s", bs_path, "-f", fmt, bd_path], {}))
         with ThreadPoolExecutor(max_workers=12) as ex:
             outs = list(ex.map(lambda job: c16.cli_run(job[3]), cli_jobs))
         for (c, ref, fmt, args, opts), (code, out, err) in zip(cli_jobs, outs):
@@ -349,7 +378,7 @@ def main(tier, seed, replay=None):
         "distinct_nontrivial": stats["api_roundtrips"] + stats["cli_runs"],
         "rule": "(1) Tie A: cli.main() in-process with validate() replaced by a recorder, 21 flag sets and every pair of 11 independent flags (both orders for a third of them): every keyword received is in the generated table, and the values of max-depth/inference/abort/allow/advanced/iterate/meta/focus/format arrive unchanged; "
                 "(2) API: reports of random cases (all literal kinds and language tags, blank-node value nodes, complex paths, sh:detail nesting) x turtle/xml/json-ld/nt/n3: the returned bytes parse back to the same verdict and result keys, and (except JSON-LD) to a graph isomorphic to the report graph; "
-                "(3) CLI: `python -m pyshacl -f fmt` on the same files for the five graph formats + human + table: parsed output = API report (isomorphic / verdict and result count), exit status 0 iff conforms",
+                "(2b) shapes documents stating a base IRI ('# baseURI:' header, @base, own file) with report IRIs under and next to the base, all five formats; (3) CLI: `python -m pyshacl -f fmt` on the same files for the five graph formats + human + table: parsed output = API report (isomorphic / verdict and result count), exit status 0 iff conforms",
         "distribution": dict(stats, option_cases=len(bodies), differences=len(diffs), option_value_errors=len(opt_bad), table_disagreements=len(failed)),
         "samples": meta[:1],
         "exhaustive": False,
